@@ -69,4 +69,171 @@ inductive EOp
   | remove (sc : Sid) (k : Nat) | update (sc : Sid) (k : Nat) (g : Option Nat → Nat)
   | newScope (outer : Sid) (binds : List (Nat × Nat))
 
+def EOp.name : EOp → EName
+  | .get _ _ => .get | .find _ _ => .find | .set _ _ _ => .set | .remove _ _ => .remove
+  | .update _ _ _ => .update | .newScope _ _ => .newScope
+
+def EOp.scope : EOp → Sid
+  | .get s _ => s | .find s _ => s | .set s _ _ => s | .remove s _ => s | .update s _ _ => s
+  | .newScope s _ => s
+
+structure ScopeS where
+  live : Bool := false
+  data : Nat → Option Nat := fun _ => none
+  outer : Option Sid := none        -- `none`: no outer (the root)
+  w : Option Nat := none
+  r : List Nat := []
+  rank : Nat := 0                   -- ghost: creation time (an outer scope is older)
+
+structure EFrame where
+  m : EName
+  cur : Sid
+  key : Nat := 0
+  val : Nat := 0
+  g : Option Nat → Nat := fun _ => 0
+  binds : List (Nat × Nat) := []
+  pc : Nat := 0
+  defers : List (EMOp × Sid) := []
+  returning : Bool := false
+  res : ERes := .none
+  got : Option Nat := none
+  newId : Sid := none
+  fresh : Nat → Option Nat := fun _ => none   -- data of the scope under construction
+
+def EOp.frame : EOp → EFrame
+  | .get s k => { m := .get, cur := s, key := k }
+  | .find s k => { m := .find, cur := s, key := k }
+  | .set s k v => { m := .set, cur := s, key := k, val := v }
+  | .remove s k => { m := .remove, cur := s, key := k }
+  | .update s k g => { m := .update, cur := s, key := k, g := g }
+  | .newScope s b => { m := .newScope, cur := s, binds := b }
+
+structure EThread where
+  strat : List ERes → Option EOp := fun _ => none
+  results : List ERes := []
+  cur : Option EFrame := none
+  nextLocal : Nat := 0
+
+structure EState where
+  scopes : Sid → ScopeS
+  threads : Nat → EThread
+  clock : Nat := 1
+  writes : List (Sid × Nat × Nat) := []   -- ghost: every (scope, key, value) ever stored
+
+def applyBinds (bs : List (Nat × Nat)) (d : Nat → Option Nat) : Nat → Option Nat :=
+  bs.foldl (fun d kv => fun k => if k = kv.1 then some kv.2 else d k) d
+
+/-- one micro-op of thread `t` on its frame and the scope the frame is at; `none` = blocked -/
+def exec (t : Nat) (m : EMOp) (fr : EFrame) (A : ScopeS) : Option (EFrame × ScopeS) :=
+  let nx := { fr with pc := fr.pc + 1 }
+  match m with
+  | .rlock => if A.w.isNone then some (nx, { A with r := t :: A.r }) else none
+  | .lock => if A.w.isNone && A.r.isEmpty then some (nx, { A with w := some t }) else none
+  | .deferRUnlock => some ({ nx with defers := (.runlock, fr.cur) :: fr.defers }, A)
+  | .deferUnlock => some ({ nx with defers := (.unlock, fr.cur) :: fr.defers }, A)
+  | .readHit =>
+    match A.data fr.key with
+    | some v => some ({ fr with returning := true,
+                                res := if fr.m = .find then .scope fr.cur else .val v }, A)
+    | none => some (nx, A)
+  | .readMiss =>
+    match A.data fr.key with
+    | some _ => some (nx, A)
+    | none => some ({ fr with returning := true }, A)
+  | .readVal => some ({ nx with got := A.data fr.key }, A)
+  | .callback => some ({ nx with val := fr.g fr.got }, A)
+  | .writeData =>
+    some ({ nx with res := .val fr.val }, { A with data := fun k => if k = fr.key then some fr.val else A.data k })
+  | .deleteData => some (nx, { A with data := fun k => if k = fr.key then none else A.data k })
+  | .callOuter _ =>
+    match A.outer with
+    | some p => some ({ fr with cur := p, pc := 0 }, A)
+    | none => some (nx, A)
+  | .setOuter => some (nx, A)
+  | .bindLoop => some ({ nx with fresh := applyBinds fr.binds fr.fresh }, A)
+  | .ret => some ({ fr with returning := true }, A)
+  | _ => none
+
+def updS {α : Type} (f : Sid → α) (i : Sid) (x : α) : Sid → α := fun j => if j = i then x else f j
+
+/-- effect of a deferred (r)unlock of thread `t` on the scope it was registered for -/
+def execDefer (t : Nat) (d : EMOp) (A : ScopeS) : ScopeS :=
+  match d with
+  | .runlock => { A with r := A.r.erase t }
+  | .unlock => { A with w := none }
+  | _ => A
+
+/-- one step of thread `t`; `none` = no enabled step -/
+def step (s : EState) (t : Nat) : Option EState :=
+  let th := s.threads t
+  match th.cur with
+  | none =>
+    match th.strat th.results with
+    | none => none
+    | some op =>
+      if (s.scopes op.scope).live then
+        some { s with threads := upd s.threads t { th with cur := some op.frame } }
+      else none
+  | some fr =>
+    if fr.returning then
+      match fr.defers with
+      | (d, sc) :: ds =>
+        some { s with scopes := updS s.scopes sc (execDefer t d (s.scopes sc)),
+                      threads := upd s.threads t { th with cur := some { fr with defers := ds } } }
+      | [] =>
+        let th' := { th with cur := none, results := th.results ++ [fr.res] }
+        if fr.m = .newScope then
+          let A : ScopeS := { live := true, data := fr.fresh, outer := some fr.cur, rank := s.clock }
+          some { s with scopes := updS s.scopes fr.newId A, threads := upd s.threads t th', clock := s.clock + 1,
+                        writes := s.writes ++ fr.binds.map fun kv => (fr.newId, kv.1, kv.2) }
+        else some { s with threads := upd s.threads t th' }
+    else
+      match (prog fr.m)[fr.pc]? with
+      | none => none
+      | some .alloc =>
+        let fr' : EFrame := { fr with pc := fr.pc + 1, newId := some (t, th.nextLocal), res := .scope (some (t, th.nextLocal)) }
+        some { s with threads := upd s.threads t { th with nextLocal := th.nextLocal + 1, cur := some fr' } }
+      | some m =>
+        (exec t m fr (s.scopes fr.cur)).map fun (fr', A') =>
+          { s with scopes := updS s.scopes fr.cur A',
+                   threads := upd s.threads t { th with cur := some fr' },
+                   writes := if m = .writeData then s.writes ++ [(fr.cur, fr.key, fr.val)] else s.writes }
+
+def run : List Nat → EState → Option EState
+  | [], s => some s
+  | t :: ts, s => (step s t).bind (run ts)
+
+/-- initial state: only the root scope exists (holding `vals`), thread `t` follows `strats[t]` -/
+def init (strats : List (List ERes → Option EOp)) (vals : Nat → Option Nat) : EState :=
+  { scopes := fun sc => if sc = none then { live := true, data := vals } else {},
+    threads := fun t => { strat := strats.getD t (fun _ => none) } }
+
+def Reachable (strats : List (List ERes → Option EOp)) (vals : Nat → Option Nat) (s : EState) : Prop :=
+  ∃ sched, run sched (init strats vals) = some s
+
+/-! ### the interpreter's package-level variables (mal.go: `Stepper`, `skip`, `outing1`, `outing2`) -/
+
+structure Globals where
+  stepper : Bool := false      -- a Stepper callback is installed
+  skip : Bool := false
+  outing1 : Bool := false
+  outing2 : Bool := false
+  deriving DecidableEq, Repr
+
+/-- guards whose truth needs a Stepper: `Stepper != nil` itself, and the two flags only ever set under it -/
+def isStepperGuard (g : String) : Bool := g == "Stepper != nil" || g == "outing1" || g == "outing2"
+
+/-- value of an `if` condition; conditions the model does not interpret are left to an oracle -/
+def guardHolds (G : Globals) (oracle : String → Bool) (g : String) : Bool :=
+  if g = "Stepper != nil" then G.stepper else if g = "outing1" then G.outing1
+  else if g = "outing2" then G.outing2 else oracle g
+
+def assignGlobal (G : Globals) (v : String) (b : Bool) : Globals :=
+  if v = "skip" then { G with skip := b } else if v = "outing1" then { G with outing1 := b }
+  else if v = "outing2" then { G with outing2 := b } else if v = "Stepper" then { G with stepper := b } else G
+
+/-- an assignment site (variable, enclosing conditions) is reached with value `b` -/
+def fire (G : Globals) (site : String × List String) (b : Bool) (oracle : String → Bool) : Globals :=
+  if site.2.all (guardHolds G oracle) then assignGlobal G site.1 b else G
+
 end LispModel.ConcEnv
